@@ -54,7 +54,7 @@ EXTRA = {
  "C04": [("C04", "C04_preserved", "C04_preserved",
           ": forall li d addr g ex fx c now branch st ev st' outs,\n"
           "  proxy_step fx c now branch st ev = Ok (st', outs) ->\n"
-          "  ev_ok li d addr branch ev -> now < ex -> pinned li d addr g ex st -> pinned li d addr g ex st'."),
+          "  ev_ok li d addr branch ev -> now < ex -> gen_ok g -> pinned li d addr g ex st -> pinned li d addr g ex st'."),
          ("C04", "dialog_of_symmetric", "C04_dialog_of_symmetric"), ("C04", "bref_round_trip", "C04_bref_round_trip"),
          ("C04", "key_neq_dialog", "C04_key_neq_dialog")],
  "C12": [("C12", "C12_preserved", "C12_preserved",
